@@ -79,13 +79,17 @@ def run_program(name, exe, thorough, resolve_args, first=0, last=None):
         lines += ls
         if rc == 0 and ls and ls[-1].startswith("END"):
             break
-        begun = [l for l in ls if l.startswith("B ")]
-        if begun:
-            f = begun[-1].split()
-            crashes.append({"idx": int(f[1]), "line": begun[-1], "rc": rc, "err": err[-400:]})
+        marks = [l for l in ls if l.startswith(("B ", "C "))]
+        if marks and marks[-1].startswith("B "):
+            f = marks[-1].split()
+            crashes.append({"idx": int(f[1]), "line": marks[-1], "rc": rc, "err": err[-400:]})
             first = int(f[1]) + 1
+        elif marks and "T_OVERRIDE_SKIP_CODES" not in env:
+            # died inside a return-value check: report it, then run the pairs without that section
+            crashes.append({"idx": -1, "line": "return-value check `%s`" % marks[-1][2:], "rc": rc, "err": err[-400:]})
+            env["T_OVERRIDE_SKIP_CODES"] = "1"
         else:
-            crashes.append({"idx": -1, "line": "(before the first pair: symbol resolution / return-value checks)", "rc": rc, "err": err[-400:]})
+            crashes.append({"idx": -1, "line": "(start-up, before any check)", "rc": rc, "err": err[-400:]})
             break
     return lines, crashes
 
@@ -189,8 +193,8 @@ def _run_impl(res, a, thorough, proofs_ok):
         for c in crashes:
             f = c["line"].split()
             what = " ".join(f[2:]) if c["idx"] >= 0 else c["line"]
-            key = "impl:crash:%s:%s" % (name, "->".join(f[2:4]) if c["idx"] >= 0 else "startup")
-            res.violation(key, "%s: the program died (exit %s) in pair %s %s" % (name, c["rc"], what, c["err"].strip()[-300:]),
+            key = "impl:crash:%s:%s" % (name, "->".join(f[2:4]) if c["idx"] >= 0 else re.sub(r'[^A-Za-z0-9_(),\[\]-]', '', c["line"].split("`")[1] if "`" in c["line"] else "startup"))
+            res.violation(key, "%s: the program died (exit %s) in %s %s" % (name, c["rc"], what, c["err"].strip()[-300:]),
                           witness="%s\nreplay: prog=%s idx=%d" % (what, name, c["idx"]))
         if not crashes and not any(l.startswith("END") for l in lines):
             res.violation("impl:noend:" + name, "%s: no END record" % name, witness=name)
@@ -225,17 +229,18 @@ def _run_impl(res, a, thorough, proofs_ok):
             elif l.startswith("T info"):
                 info.append(name + ": " + " ".join(f[2:]))
         # every required entry point the library should export must be bound to the preloaded library
-        if "preload" in name and name.startswith("c/"):
+        if "preload" in name:
+            want_lang = "LC" if name.startswith("c/") else "LCxx"     # the C program does not load the C++ runtime
             bound = {l.split()[2]: kv(l.split()[3:]).get("lib") for l in tl if l.startswith("T resolve")}
             for sym, lang, cls, pres in required:
-                if pres == "MustExport" and bound.get(sym) != LIBNAME:
+                if lang == want_lang and pres == "MustExport" and bound.get(sym) != LIBNAME:
                     fails.append((name, "resolve", sym, "", {"why": "required entry point is bound to %s, not to the preloaded %s" % (bound.get(sym), LIBNAME)}, -1))
 
     # ---- violations: allocation-side failures first (they name the entry point that is not served) ----
     reported = 0
     order = {"alloc": 0, "resolve": 1, "code": 2, "pair": 3}
     for name, kind, x, y, d, idx in sorted(fails, key=lambda t: order[t[1]]):
-        if reported >= 16:
+        if reported >= 8:
             break
         if kind == "alloc":
             key = "impl:alloc:" + x
@@ -291,6 +296,9 @@ def _replay(res, a, progs, thorough):
         log("replay file has no runnable pair; running nothing")
         return
     name, idx = m.group(1), int(m.group(2))
+    mt = re.search(r'^tier=(\w+)', txt, re.M)
+    if mt:
+        thorough = (mt.group(1) == "thorough")      # pair indices depend on the tier's size list
     lines, crashes = run_program(name, progs[name], thorough, [], first=idx, last=idx)
     for l in lines:
         log(l)
